@@ -1,4 +1,4 @@
-import PlumpyModel.PM.Proof9
+import PlumpyModel.PM.Proof10
 /-!
 # C02 — all reports of a terminated process's outcome agree
 
@@ -9,11 +9,15 @@ KILLED ↦ KilledError, EXCEPTED e ↦ the exception `e` itself.
 
 Proved for every program, every number of awaited futures and every history of events (ticks in any order, pause, play,
 kill, resume, fail, call_soon callbacks, cancellation of the future, completion of awaitables).
-"step_until_terminated() returns" is proved in two parts that are not yet joined by an invariant over histories
-(`C02_stepper_returns_full` states what is missing; the correspondence check and the Python monitor decide it on every
-explored schedule): from a terminated configuration whose stepping coroutine is not blocked on an unreleased future,
-finitely many wake-ups end it normally (`C02_stepper_returns_partial`); and the two transitions that could leave it
-blocked release it (`C02_termination_releases_pause`, `C02_leaving_waiting_completes_wait`: repairs G and J).
+"step_until_terminated() returns" is proved for every history as well (`C02_stepper_returns`): in every reachable
+terminated configuration finitely many wake-ups of the stepping task end it normally.  It rests on the linking invariant
+`Inv10` of `PM/Proof10.lean` over all reachable configurations, of which the readable parts are restated here: the
+stepping task never crashes (`C02_stepper_never_crashes`), a task blocked on a waiting future will be woken
+(`C02_waiting_stepper_is_released`), a task blocked on a pause future holds the current one or a released one, and the
+current one is released once the process has terminated (`C02_paused_stepper_is_released`).  The configuration-level
+statement `C02_stepper_returns_partial` (any terminated configuration, reachable or not, whose coroutine is not blocked
+on an unreleased future) and the two release lemmas (`C02_termination_releases_pause`,
+`C02_leaving_waiting_completes_wait`: repairs G and J) are kept.
 -/
 namespace PMF
 
@@ -73,17 +77,55 @@ theorem C02_future_resolved_iff_terminated (P : Prog) (nf : Nat) (evs : List Ev)
     exact hne _ _ h
 
 
-/-- the full statement: in every reachable terminated configuration the stepping task ends after finitely many of its
-own wake-ups.  Not proved: it needs the invariant linking the coroutine's program counter to the current state object
-(`pc = awaitWaiting wf` ⇒ `wf` is the future of the current WAITING state or is completed, `pc = awaitPaused pf` ⇒ `pf`
-is the current pause future or is released, the interrupt action is never run twice) across all events. -/
-def C02_stepper_returns_full : Prop :=
-  ∀ (P : Prog) (nf : Nat) (evs : List Ev), terminal (run P (init nf) evs).st.label = true →
-    ∃ n, (ticks P n (run P (init nf) evs)).pc = .done
+/-- **step_until_terminated() returns**: for every program, every number of awaited futures and every history of events
+(ticks of the stepping task and of scheduled callbacks in any order, pause, play, kill, resume, fail, call_soon,
+cancellation of the future, completion of awaitables), if the configuration reached is terminated then finitely many
+further wake-ups `ticks P n` of the stepping task bring its program counter to `done`: whoever awaits
+`step_until_terminated()` is released, and the task ends normally, not by an exception. -/
+theorem C02_stepper_returns (P : Prog) (nf : Nat) (evs : List Ev)
+    (ht : terminal (run P (init nf) evs).st.label = true) :
+    ∃ n, (ticks P n (run P (init nf) evs)).pc = .done :=
+  stepper_returns_reachable P nf evs ht
 
-/-- **step_until_terminated() returns (partial)**: from ANY terminated configuration in which the stepping coroutine has
-not crashed and is not blocked on an unreleased future (the pause future it awaits and the current one are released,
-the waiting future it awaits is completed), finitely many wake-ups of the stepping task end it normally. -/
+/-- **the stepping task never crashes**: in no reachable configuration (terminated or not) has the coroutine of
+`step_until_terminated()` ended with an exception (neither "closed" from a step on a closed process nor the
+interrupt action being run a second time). -/
+theorem C02_stepper_never_crashes (P : Prog) (nf : Nat) (evs : List Ev) (e : Exc) :
+    (run P (init nf) evs).pc ≠ .crashed e :=
+  (run_inv10 P (init nf) evs (inv2_init nf) (inv10_init nf)).s.nocrash e
+
+/-- **a stepper awaiting a waiting future will be woken** (the link that repair J maintains): in every reachable
+configuration in which the stepping task is suspended on waiting future `wf`, that future exists and either the current
+state object is the WAITING state that owns `wf` (so `resume`, an awaitable or leaving the state will complete it) or
+`wf` is already completed (result, failure or interruption). -/
+theorem C02_waiting_stepper_is_released (P : Prog) (nf : Nat) (evs : List Ev) (wf : Nat)
+    (hpc : (run P (init nf) evs).pc = .awaitWaiting wf) :
+    let c := run P (init nf) evs
+    wf < c.wfs.length ∧ ((∃ fn wk aw, c.st = .waiting fn wf wk aw) ∨ c.wfs[wf]? ≠ some .pending) :=
+  (run_inv10 P (init nf) evs (inv2_init nf) (inv10_init nf)).s.aw wf hpc
+
+/-- **a stepper awaiting a pause future will be woken** (the link that repair G maintains): in every reachable
+configuration in which the stepping task is suspended on pause future `pf`, that future exists and is the process's
+current pause future (so `play` releases it) or is already released; and if the process has terminated, the current
+pause future is released, hence so is `pf`. -/
+theorem C02_paused_stepper_is_released (P : Prog) (nf : Nat) (evs : List Ev) (pf : Nat)
+    (hpc : (run P (init nf) evs).pc = .awaitPaused pf) :
+    let c := run P (init nf) evs
+    pf < c.pfs.length ∧ (c.paused = some pf ∨ c.pfs[pf]? = some true) ∧
+    (terminal c.st.label = true → c.pfs[pf]? = some true ∧ ∀ pf', c.paused = some pf' → c.pfs[pf']? = some true) := by
+  intro c
+  have h := run_inv10 P (init nf) evs (inv2_init nf) (inv10_init nf)
+  obtain ⟨h1, h2⟩ := h.s.ap pf hpc
+  refine ⟨h1, h2, fun ht => ⟨?_, h.s.tp pf hpc ht⟩⟩
+  rcases h2 with hp | hp
+  · exact h.s.tp pf hpc ht pf hp
+  · exact hp
+
+/-- **step_until_terminated() returns, configuration-level**: from ANY terminated configuration — reachable or not — in
+which the stepping coroutine has not crashed and is not blocked on an unreleased future (the pause future it awaits and
+the current one are released, the waiting future it awaits is completed), finitely many wake-ups of the stepping task
+end it normally.  (`C02_stepper_returns` discharges these hypotheses for reachable configurations; this statement is
+kept because it does not depend on how the configuration was reached.  The name keeps its historical `_partial`.) -/
 theorem C02_stepper_returns_partial (P : Prog) (c : Cfg) (ht : terminal c.st.label = true) (hcr : ∀ e, c.pc ≠ .crashed e)
     (hpz : ∀ pf, c.paused = some pf → c.pfs[pf]? = some true)
     (hap : ∀ pf, c.pc = .awaitPaused pf → c.pfs[pf]? = some true)
@@ -113,6 +155,24 @@ example : (run async1 (init 0) [.tick, .kill, .tick]).st = .killed := by decide 
 example : (run async1 (init 0) [.tick, .fail (.user 2), .tick]).st = .excepted (.user 2) := by decide +kernel
 -- kill while paused: the stepping task, blocked on the pause, ends after one wake-up
 example : (ticks async1 1 (run async1 (init 0) [.tick, .pause, .tick, .kill])).pc = .done := by decide +kernel
+-- the hypotheses of `C02_stepper_returns` / `C02_paused_stepper_is_released` hold non-trivially: after kill-while-paused
+-- (pause, first wake-up, kill) the process is KILLED while the stepping task is still suspended on pause future 0, released
+example : let c := run async1 (init 0) [.pause, .tick, .kill]
+    c.st = .killed ∧ c.pc = .awaitPaused 0 ∧ c.paused = some 0 ∧ c.pfs[0]? = some true ∧
+    (ticks async1 1 c).pc = .done := by decide +kernel
+-- the current pause future of a terminated process can be unreleased only when nobody awaits it: a pause requested
+-- during the last step is honoured after the transition to FINISHED; the stepping task has already returned
+example : let c := run async1 (init 0) [.tick, .pause, .tick]
+    c.st = .finished (some 3) true ∧ c.paused = some 0 ∧ c.pfs[0]? = some false ∧ c.pc = .done := by decide +kernel
+-- `C02_waiting_stepper_is_released`: fail() during a waiting step leaves the task suspended on waiting future 0 of a
+-- state object that is gone; the future was completed on exit, one wake-up ends the task
+private def wait1 : Prog := fun fn _ _ _ => if fn = 0 then ⟨0, .ret (.wait 1)⟩ else ⟨0, .ret (.stop none true)⟩
+example : let c := run wait1 (init 0) [.tick, .fail (.user 2)]
+    c.st = .excepted (.user 2) ∧ c.pc = .awaitWaiting 0 ∧ c.wfs[0]? = some (.result none) ∧
+    (ticks wait1 1 c).pc = .done := by decide +kernel
+-- … and while the WAITING state is still current, the task is suspended on the future that state owns
+example : let c := run wait1 (init 0) [.tick]
+    c.st = .waiting 1 0 none [] ∧ c.pc = .awaitWaiting 0 ∧ c.wfs[0]? = some .pending := by decide +kernel
 end
 
 end PMF
